@@ -781,6 +781,10 @@ def models(draw, max_templates=3, sizes='normal', for_xta=False, need_clean=Fals
             if draw(st.integers(0, 2)) == 0:
                 for _ in range(draw(st.integers(1, 2))):
                     sn = fresh('i')
+                    # a select binder may take the name of something already visible (it shadows it inside the edge)
+                    shadowable = [n for n in tenv.of_kind('int', 'cint', 'rint', 'pint') if n not in [x[0] for x in e.select]]
+                    if shadowable and draw(st.integers(0, 3)) == 0:
+                        sn = draw(st.sampled_from(shadowable))
                     tys = [('int[0,3]', with_prefix(ts_range('(CONSTANT 0)', '(CONSTANT 3)'), 'CONSTANT'))]
                     for tn in tenv.of_kind('type'):
                         tys.append((tn, (('CONSTANT',), ('label', tn))))
